@@ -5,6 +5,7 @@ import (
 	"encoding/json"
 	"flag"
 	"fmt"
+	sdk "github.com/cosmos/cosmos-sdk/types"
 	"os"
 	"os/exec"
 	"path/filepath"
@@ -230,26 +231,7 @@ func cmdTwin(args []string) {
 	events := map[string]int{}
 	var samples []string
 	focuses := []string{"mixed", "fees", "reggov", "stream", "efund"}
-	for i := 0; i < *n; i++ {
-		r := newRng(seed*9_000_011 + uint64(i))
-		w := focusWeights[focuses[i%len(focuses)]]
-		w.reimportEvery = 0 // the twins replay recorded blocks: an export + import is not a block
-		w.checkPerBlock = 0
-		c := newChain(randCfg(r, true))
-		h := newHistory(c, r, w)
-		h.focus = focuses[i%len(focuses)]
-		h.futureSubmit = 2 // values a node could be tempted to compare with its own clock
-		h.twinValidator = true
-		h.run(*blocks)
-		for k, v := range h.kinds {
-			kinds[k] += v
-		}
-		for k, v := range h.results {
-			results[k] += v
-		}
-		for k, v := range h.flags {
-			events[k] += v
-		}
+	replayTwins := func(i int, c *chain, r *rng, all bool) {
 		tf := twinFile{Genesis: c.genesisBytes, GenesisNs: c.genesisTime.UnixNano(), Blocks: c.blocks, Results: c.results}
 		// only fully committed blocks are replayed
 		for len(tf.Results) > 0 && tf.Results[len(tf.Results)-1].AppHash == nil {
@@ -262,7 +244,7 @@ func cmdTwin(args []string) {
 				pts = append(pts, k+1)
 			}
 			for _, p := range pts {
-				if *allCrash || r.chance(1, 3) {
+				if all || r.chance(1, 3) {
 					tf.CrashPoints = append(tf.CrashPoints, [2]int{bi, p})
 				}
 			}
@@ -313,6 +295,68 @@ func cmdTwin(args []string) {
 		if os.Getenv("VH_KEEP_TWIN") == "" {
 			os.Remove(tfPath)
 		}
+	}
+	for i := 0; i < *n; i++ {
+		r := newRng(seed*9_000_011 + uint64(i))
+		w := focusWeights[focuses[i%len(focuses)]]
+		w.reimportEvery = 0 // the twins replay recorded blocks: an export + import is not a block
+		w.checkPerBlock = 0
+		c := newChain(randCfg(r, true))
+		h := newHistory(c, r, w)
+		h.focus = focuses[i%len(focuses)]
+		h.futureSubmit = 2 // values a node could be tempted to compare with its own clock
+		h.twinValidator = true
+		h.run(*blocks)
+		for k, v := range h.kinds {
+			kinds[k] += v
+		}
+		for k, v := range h.results {
+			results[k] += v
+		}
+		for k, v := range h.flags {
+			events[k] += v
+		}
+		replayTwins(i, c, r, *allCrash)
+	}
+	// a designated history with EVERY crash point: the life cycle of a purchase order (raised, decided, tallied, minted,
+	// spent on a registry fee), registry records up to the pruning boundary and a stream created, claimed and cancelled,
+	// a few seconds apart - whatever a begin blocker or a keeper remembers between two blocks outside the store shows up
+	// as a difference between the node that is dropped and reopened and the nodes that are not
+	{
+		cfg := fixedCfg()
+		s := &scen{c: newChain(cfg), name: "twin-lifecycle"}
+		c := s.c
+		s.blockStart(5 * time.Second)
+		s.tx(4, nundCoins(0), c.mEntRaise(4, "nund", sdk.NewInt(5000)).m)
+		s.tx(0, nundCoins(0), c.mStrCreate(0, 1, "nund", sdk.NewInt(6000), 10).m)
+		s.blockEnd()
+		s.blockStart(3 * time.Second)
+		s.tx(0, nundCoins(0), c.mEntDecide(0, 1, 2).m)
+		s.tx(1, nundCoins(0), c.mEntDecide(1, 1, 2).m)
+		s.tx(2, nundCoins(1000), c.mRegRegister(true, 2, "w", "n", "g", "t").m)
+		s.blockEnd()
+		s.blockStart(3 * time.Second) // tally
+		s.tx(1, nundCoins(0), c.mStrClaim(0, 1).m)
+		s.blockEnd()
+		s.blockStart(3 * time.Second) // mint
+		s.tx(2, nundCoins(10), c.mRegRecord(true, 2, 1, 1, []string{"a"}).m)
+		s.blockEnd()
+		s.blockStart(3 * time.Second)
+		s.tx(4, nundCoins(1000), c.mRegRegister(false, 4, "b", "n", "", "").m) // paid out of locked eFUND
+		s.tx(2, nundCoins(10), c.mRegRecord(true, 2, 1, 2, []string{"b"}).m)
+		s.tx(4, nundCoins(0), c.mEntRaise(4, "nund", sdk.NewInt(70)).m)
+		s.blockEnd()
+		s.blockStart(40 * time.Second)
+		s.tx(2, nundCoins(10), c.mRegRecord(true, 2, 1, 3, []string{"c"}).m) // prunes (default limit 2)
+		s.tx(0, nundCoins(0), c.mEntDecide(0, 2, 3).m)
+		s.tx(1, nundCoins(0), c.mEntDecide(1, 2, 3).m)
+		s.tx(0, nundCoins(0), c.mStrCancel(0, 1).m)
+		s.blockEnd()
+		s.blockStart(3 * time.Second)
+		s.blockEnd()
+		s.blockStart(3 * time.Second)
+		s.blockEnd()
+		replayTwins(*n, c, newRng(seed), true)
 	}
 	writeJSON(filepath.Join(*out, "stats_twin.json"), map[string]interface{}{
 		"files": []string{}, "evaluations": totalBlocks * 3, "distinct_nontrivial": *n,
